@@ -60,6 +60,15 @@ def generate(tier, seed):
         lines += ["EVAL (setq tpl '`%s) (setq r1 (eval tpl)) (setq r2 (eval tpl)) (list (equal r1 r2) r2)" % txt.replace("(tick", "(progn"),
                   "EVAL (list x l0 l1 l3 tpl)"]
         if rng.random() < 0.3:
+            # the same template inside a closure that captured x, l1, l3 and is called after the let has exited (the globals
+            # of the same names hold other values): every unquoted part, also under quote marks and in the dotted tail,
+            # sees the captured value
+            binds = "(x 'cx) (l1 '(c1)) (l3 '(cp cq))"
+            t2 = txt.replace("(tick", "(progn")
+            lines += ["EVAL (setq cl (let (%s) (lambda () `%s))) 'made" % (binds, t2),
+                      "EVAL (funcall cl)",
+                      "EVAL (equal (funcall cl) (let (%s) `%s))" % (binds, t2)]
+        if rng.random() < 0.3:
             lines += ["EVAL `(,@li)", "EVAL `(a ,@li b)", "EVAL `(a . ,@l3)", "EVAL `,x", "EVAL `,@l3", "EVAL `(1 . (2 ,x))"]
     return {"lines": lines, "nontrivial": len(nt), "distribution": {"templates": len(temps)}}
 
@@ -72,6 +81,9 @@ def oracle(lines, impl, model, meta):
             l, a = lines[i], impl[i] or ""
             if l.startswith("EVAL (equal `") and a != "OK t" and not a.startswith("ERR"):
                 bad.append(("template differs from its list/append construction", [lines[j] for j in idxs], i - idxs[0], a, model[i]))
+                break
+            if l.startswith("EVAL (equal (funcall cl)") and a != "OK t" and not a.startswith("ERR"):
+                bad.append(("template inside a closure differs from the template under a let with the captured values", [lines[j] for j in idxs], i - idxs[0], a, model[i]))
                 break
             if l.startswith("EVAL (setq tpl ") and a.startswith("OK (nil"):
                 bad.append(("second evaluation of the template differs from the first", [lines[j] for j in idxs], i - idxs[0], a, model[i]))
